@@ -3,6 +3,7 @@ package main
 import (
 	"bufio"
 	"bytes"
+	"context"
 	"encoding/json"
 	"fmt"
 	"io"
@@ -411,7 +412,9 @@ func finish(p *propDef, id, tier string, seed int, t0 time.Time, njobs int, m *m
 	// confirm fresh violations by replaying them 3x in fresh processes
 	os.MkdirAll(filepath.Join(verifDir, "replays"), 0755)
 	var confirmed []string
+	var confirmedV []Viol
 	nviol := 0
+	nospSeen := 0
 	for i := range fresh {
 		v := &fresh[i]
 		if len(confirmed) >= 5 {
@@ -422,15 +425,32 @@ func finish(p *propDef, id, tier string, seed int, t0 time.Time, njobs int, m *m
 		os.WriteFile(path, bs, 0644)
 		if v.Kind == "fatal" {
 			confirmed = append(confirmed, path)
+			confirmedV = append(confirmedV, *v)
 			nviol++
 			continue
 		}
 		ok := true
 		exe, _ := os.Executable()
+		nosp := v.Kind == "hang" && v.Site == "no scheduling point"
+		if nosp {
+			nospSeen++
+			if nospSeen > 1 {
+				continue // one witness of a synchronisation-free loop is enough (each confirmation costs a timeout)
+			}
+		}
 		for k := 0; k < 3; k++ {
-			cmd := exec.Command(exe, "replay", path, "--quiet")
+			if nosp && k > 0 {
+				break
+			}
+			ctx, cancel := context.WithTimeout(context.Background(), 60*time.Second)
+			cmd := exec.CommandContext(ctx, exe, "replay", path, "--quiet")
 			cmd.Env = append(os.Environ(), "GOMAXPROCS=1")
 			out, _ := cmd.Output()
+			timedOut := ctx.Err() != nil
+			cancel()
+			if timedOut && v.Kind == "hang" && v.Site == "no scheduling point" {
+				continue // the replay stops reaching scheduling points as well
+			}
 			if strings.TrimSpace(string(out)) != strings.TrimSpace(v.Sig()) {
 				ok = false
 				fmt.Printf("ERROR: violation of %s in job %s did not reproduce identically on replay %d (got %q want %q)\n", id, v.Job, k+1, strings.TrimSpace(string(out)), v.Sig())
@@ -441,6 +461,7 @@ func finish(p *propDef, id, tier string, seed int, t0 time.Time, njobs int, m *m
 			return 2
 		}
 		confirmed = append(confirmed, path)
+		confirmedV = append(confirmedV, *v)
 		nviol++
 	}
 
@@ -527,7 +548,7 @@ func finish(p *propDef, id, tier string, seed int, t0 time.Time, njobs int, m *m
 		id, tier, njobs, ex, tr, nodes, nontriv, len(outcomes), exhaustive, wall)
 	if nviol > 0 {
 		for i, path := range confirmed {
-			v := fresh[i]
+			v := confirmedV[i]
 			fmt.Printf("  violation: job=%s kind=%s site=%s\n    %s\n", v.Job, v.Kind, v.Site, firstLine(v.Msg))
 			fmt.Printf("VIOLATION property=%s replay=%s\n", id, path)
 		}
